@@ -34,6 +34,9 @@ def describe(e):
         return f"signature chain (N={e['N']}, message {e['msg']}, chain {chain}): verdicts {[(c['kind'], c['verdict']) for c in e['checks'][:4]]} contradict the provenance (PSig.tla)"
     if ev == "request":
         return f"signature request (N={e['N']}, tamper={e['tamper']}): outcome {e['out']}, Schnorr relation holds={e['schnorr_holds']}"
+    if ev == "capability":
+        return (f"{e['type']} (a value that exists only as the result of a verifying proof): decodable from bytes = {e['deserialize']}, "
+                f"clonable = {e['clone']} (documented as one-shot: {e['clone_forbidden']})")
     if ev == "proof":
         return (f"{e['kind']} proof (N={e['N']}, case {e['case']}): verdict {e.get('verdict')}, decoded {e.get('decoded')}, independently evaluated relations {e.get('atoms')}"
                 + (f", builder challenge = proof challenge: {e.get('builder_eq_proof')}, patterns {e.get('patterns')}" if e["case"] == "honest" else ""))
@@ -96,13 +99,13 @@ def check_C08(tier, seed):
     build_harness()
     ms = psig_models(tier)
     ev = run_lib("C08", "psig", tier, seed, "Trace_PSig",
-                 lambda e: e["ev"] == "request" or (e["ev"] == "psig" and any(o["op"] == "blindsign" for o in e["ops"])))
+                 lambda e: e["ev"] in ("request", "capability") or (e["ev"] == "psig" and any(o["op"] == "blindsign" for o in e["ops"])))
     return lib_evidence("C08", tier, seed, ms, ev,
         "one evaluation = one signature request: honest (must yield a blind-signable value whose blind signature unblinds to a signature on the message and on no single-coordinate change) or "
         "tampered in one field of its wire form / the challenge / the key (must yield none); plus every blind-sign chain of C07; the outcome must equal the independently evaluated Schnorr relation; "
         "distinct = (N, message class, tampered field or chain)",
         "tlc PSig (BlindSign action, VerifyExact) + Trace_PSig on harness requests", t0,
-        lambda e: (e["N"], tuple(e["msg"]), e.get("tamper", json.dumps(e.get("ops")))), ALG_ASSUME)
+        lambda e: (e.get("N", 0), tuple(e.get("msg", [e.get("type", "")])), e.get("tamper", json.dumps(e.get("ops")))), ALG_ASSUME)
 
 
 def check_C09(tier, seed):
